@@ -17,7 +17,13 @@ for m in muts:
     try:
         for sub in ("tools", "csg", "xtp"):
             shutil.copytree(os.path.join("/repo", sub), os.path.join(d, sub), symlinks=True)
-        for ed in m["edits"]:
+        if m.get("patch"):
+            pr = subprocess.run(["patch", "-p1", "-s", "-d", d, "-i", os.path.join(VERIF, m["patch"])], capture_output=True, text=True)
+            if pr.returncode != 0:
+                print("MUTANT-STALE %s: patch does not apply: %s" % (m["name"], pr.stdout[-300:]))
+                bad += 1
+                continue
+        for ed in m.get("edits", []):
             p = os.path.join(d, ed["file"])
             s = open(p).read()
             if s.count(ed["old"]) != 1:
